@@ -10,6 +10,7 @@
    read), [im_run]/[im_after]/[im_counters] (histories of fetches on the model).
    Everything holds for every geometry with 0 <= ibits and 0 <= bbits, every associativity,
    both replacement policies, every penalty, every program. *)
+From Coq Require Import Lia.
 From ArchSim Require Import Model.Base Model.Cache Model.RV Spec.RefCache Proofs.C11Proofs.
 Open Scope Z_scope.
 
@@ -158,9 +159,11 @@ Example fetch_example :
     [cnt 0 1 false; cnt 1 2 true; cnt 1 3 false; cnt 1 4 false; cnt 1 5 false; cnt 2 6 true;
      cnt 2 7 false] /\
   ref_fetch_run gi 5 (rcache_init gi) fa = combine (im_counters im0 fa) (map snd (im_run im0 fa)) /\
-  map fst (im_run im0 fa) = map (instr_at p5) fa /\
-  Forall (fun a => a mod 4 = 0 /\ 0 <= a < 2 ^ 32) fa.
-Proof. vm_compute. repeat split; repeat constructor; discriminate. Qed.
+  map fst (im_run im0 fa) = map (instr_at p5) fa.
+Proof. vm_compute. repeat split. Qed.
+
+Example fetch_example_aligned : Forall (fun a => a mod 4 = 0 /\ 0 <= a < 2 ^ 32) fa.
+Proof. unfold fa. repeat (constructor; [split; [reflexivity | lia]|]). constructor. Qed.
 
 (* a fetch past the program end through the cache returns the empty slot, as uncached *)
 Example fetch_past_end : fst (fst (im_read (im_after im0 fa) 20)) = None /\ instr_at p5 20 = None.
